@@ -158,5 +158,56 @@ PROPS = {
     },
 }
 
+PROPS["C09"] = {
+    "runner": "C09", "race": True, "verdict_op": "linearizability check (LinCheck.atoms_linearizable)", "timeout": 3000, "vm_k": 12,
+    "replay_hint": "the history is schedule-dependent: run go/bin/impl_race -tier quick -seed <seed> -out /tmp/o C09 (GORACE=halt_on_error=1 for races); hangs: evaluate the printed forms from the printed threads on one environment",
+    "technique": "Coq small-step model of deref/reset!/swap! over one RWMutex-guarded cell whose per-thread programs are the action lists the translator regenerates from lib/concurrent/concurrent.go "
+                 "(pinned by lemmas); invariant + linearizability theorem over ALL schedules, exclusion, quiescent-unlocked, deadlock freedom (refuted for self-deref), lock-discipline analysis proved sound; "
+                 "correspondence = timed histories of the real atoms judged by the proved-sound-and-complete Coq linearizability checker, under the Go race detector, with hang watchdogs",
+    "level_text": "Proved for any number of threads, any programs of deref / reset! / swap! with pure or failing update functions and EVERY schedule: the atom's value is the replay of the history of "
+                  "linearisation points, each recorded result is the sequential atom's at that point, each thread's results are in program order those of its own operations (atomic, no lost update, consistent with real "
+                  "time since a linearisation point is a step of the operation itself); a writer excludes all readers and writers; whenever no operation is in flight the lock is free (a failed update leaves the atom usable and unchanged); "
+                  "some unfinished thread can always move unless an update function re-locks the atom being swapped. That last case is REFUTED in the model (C09_self_deref_refuted) and is the open known finding C09:swap-self-deref; the "
+                  "opposite-nesting deadlock C09:nested-swap-abba is exhibited on the implementation only (the model has one atom: update functions touching OTHER atoms are checked on recorded histories, not proved: partial). "
+                  "The tie to the code: (1) the translator's action lists for swap!, reset!, Atom.Deref, Atom.LispPrint equal the lists the model's steps follow, and every function of concurrent.go passes the lock-discipline analysis "
+                  "(proved sound: every path reads Val under R/W, writes under W, never re-locks, returns balanced); (2) 400 (quick) / 6000 (thorough) recorded concurrent histories of the real atoms are linearizable per the Coq checker, 0 data races, no hang.",
+    "level_note": "trusted: Coq kernel+VM, extraction, OCaml driver, Go harness (threads, logical clock, watchdogs), Go race detector, translator go/cmd/gen (go/ast walk emitting lock/field/channel actions); the Go scheduler decides which interleavings the recorded histories sample; sync.RWMutex semantics are modelled (writer exclusive, readers shared, blocking, non-reentrant)",
+    "trusted": ["translator go/cmd/gen: action lists of concurrent.go and env.go (go/ast)", "modelled rather than verified: sync.RWMutex, goroutine scheduling as arbitrary interleaving of the listed actions, Apply as one atomic step that returns a value or fails",
+                "Go race detector (vector clocks over the executions the harness produced)"],
+    "assumptions": ["update functions are deterministic functions of the value they are given (or fail); an update function that updates the very atom being swapped is excluded by the property",
+                    "histories use integer-valued atoms; nested operations only from a lower- to a higher-numbered atom (the opposite order is the known finding)"],
+}
+PROPS["C10"] = {
+    "runner": "C10", "race": True, "verdict_op": "C10 clause checker (ConcFuture.fhist_ok)", "timeout": 3000, "vm_k": 12,
+    "replay_hint": "the history is schedule-dependent: run go/bin/impl_race -tier quick -seed <seed> -out /tmp/o C10; the printed listing gives the future, every thread's calls with results and [invocation,response] instants",
+    "technique": "Coq small-step model of the Future record (body goroutine, Deref's select with take/re-deposit, Cancel, IsDone/IsCancelled under f.mu) following the action lists regenerated from concurrent.go (pinned); "
+                 "five invariants (mutex, ghost clock, outcome slot, critical sections, history) preserved by every step; the C10 clauses as theorems over timed histories for every schedule and every select resolution; "
+                 "correspondence = timed histories of real futures judged by the extracted clause checker (proved to accept every model history), race detector, watchdogs, body-execution count",
+    "level_text": "Proved for any number of callers, any programs of @f (with or without an expiring context) / future-done? / future-cancelled? / future-cancel, every schedule and every resolution of select: the body is evaluated at most once "
+                  "(exactly once when finished); every deref that returns an outcome returns the one outcome the body produced; a status flag seen true is never seen false by a call invoked after that response; future-done? is true for every call invoked "
+                  "after a deref returned the outcome; a cancel that returned true leaves the future cancelled for good, its body's context cancelled, and every later cancelled?/cancel says so; a cancel that returned false found it done and not cancelled and changed nothing "
+                  "(never cancelled, context untouched); the flags are only accessed by the holder of f.mu (no data race). These hold on the tree WITH the fix 4129ba5 (before it the flags were unsynchronised and done was raised after delivery: genuine defect, fixed). "
+                  "Not proved (partial): liveness (a patient deref eventually returns once the body ends) and 'a cancel that finds the future completed and uncancelled returns false' in its strongest temporal form; both are checked on the recorded histories (final patient deref under watchdog; cancel-true-needs-an-earlier-cancel oracle). "
+                  "Tie: action lists of NewFuture's goroutine, Deref, Cancel, IsDone, IsCancelled and the status builtins equal the lists the model follows; lock discipline of every function; 400/4000 recorded histories accepted by the extracted checker, 0 races.",
+    "level_note": "trusted: as C09; channels are modelled as one-slot buffers (capacity 1 as in NewFuture), select as nondeterministic choice among ready cases, context cancellation as a boolean the body's outcome may depend on",
+    "trusted": ["translator go/cmd/gen (action lists)", "modelled rather than verified: buffered channels of capacity 1, select, context.WithCancel, sync.Mutex", "Go race detector"],
+    "assumptions": ["the body is an arbitrary function of whether its context was cancelled by the time it finished", "callers' own deadlines are modelled as 'may time out at any moment once expiring'"],
+}
+PROPS["C11"] = {
+    "runner": "C11", "race": True, "timeout": 3000, "vm_k": 6,
+    "replay_hint": "evaluate the printed programs at the same time (one goroutine each, lisp.EVAL) on one environment built like go/h/env.go NewWorld plus the printed shared definitions; race reports: GORACE=halt_on_error=1 go/bin/impl_race ... C11",
+    "technique": "lock-discipline analysis (Coq, proved sound over all paths incl. loops) run inside Coq on the action lists the translator regenerates from env/env.go; scope-isolation theorems on the evaluator model's heap of frames; "
+                 "correspondence = batches of generator and hand-written programs evaluated concurrently on one environment vs the same programs alone (and vs the evaluator model), under the Go race detector",
+    "level_text": "Proved: (race freedom of scopes) every function of env.go, on every path — any branch, any number of loop iterations — reads the bindings map only under the scope's read or write lock, writes it only under the write lock, never locks twice, "
+                  "returns with its locks balanced; the *NT variants are only called with the lock held, the public entry points with it free (analysis proved sound; its verdict is recomputed on the regenerated action lists at every run). "
+                  "(isolation, evaluator model) a binding goes into exactly one frame; a new let/call/catch scope gets an identifier that is on no existing chain; a lookup reads the frames of its own outer chain only; hence a scope another evaluation allocates and binds in is invisible from every pre-existing scope. "
+                  "Not proved (partial): the whole-program statement 'each evaluation returns what it returns alone' for the concurrent evaluator (the model is sequential; goroutine interleaving of EVAL is not modelled) — decided on executions: 80/700 batches of 2-8 programs "
+                  "(C01-generator programs with per-thread names; shapes sharing LOCAL names, catch variables, gensym temporaries, memoize, own atoms/futures, futures reading their enclosing let/parameter scope while the parent defines into it) give the solo result and trace, the generator programs also the model's prediction; 0 data races. "
+                  "The debugger globals (skip/outing) are process-wide and unsynchronised but only touched when a Stepper is installed (never in concurrent use here): noted, not checked.",
+    "level_note": "trusted: as C09; data-race freedom on executions is the race detector's verdict on the interleavings the Go scheduler produced; the discipline analysis covers env.go (and concurrent.go) only, accesses to other shared structures (types, call registry) rely on the race detector",
+    "trusted": ["translator go/cmd/gen (action lists of env.go)", "Go race detector", "modelled rather than verified: sync.RWMutex; the evaluator's own goroutine-local state (Go stack) is private by construction of Go"],
+    "assumptions": ["programs write global names of their own and only read shared globals (as the property states)"],
+}
+
 NOT_CLAIMED = {p: "machinery for this property is not built yet in this revision (see DESIGN.md §9 order of work)" for p in
                ["C%02d" % i for i in range(1, 21)] if p not in PROPS}
